@@ -26,7 +26,8 @@ from vt.ref import cli as R
 ID = "C19"
 RULE = ("case = (input file, argv of `tt convert`, configuration): inputs are bundled corpus files plus generated tiny "
         "files of all five formats; argv/config drawn round-robin from option-set kinds (plain, extension letter case, "
-        "explicit --itype/--otype incl. misleading extensions, --filter lcd (x1, x2), reader/writer/filter/general "
+        "explicit --itype/--otype incl. misleading extensions, --filter lcd (x1, x2) and two harness-registered "
+        "non-commuting probe filters in several orders, reader/writer/filter/general "
         "configurations from the README table, --config_file, --config + --config_file in conflict, unused-module "
         "configuration, empty module dictionaries) over all 15 (input, output) format pairs; every README table entry "
         "(valid, boundary, invalid, lenient) is additionally enumerated through the CLI and through parse(). "
@@ -37,6 +38,8 @@ ASSUMPTIONS = [
   "configuration parsing and process-global state",
   "absent module key = library call without configuration (reader/writer) resp. config_class() (filter); TTML bytes of "
   "the library composition = ElementTree.write(encoding='utf-8'); SRT/VTT = the writer's string encoded as UTF-8",
+  "filter order / registry / per-filter configuration look-up are made observable with two probe filters (vta, vtb: append a "
+  "suffix to every text node) registered by subclassing DocumentFilter, the library's public extension point",
   "document_lang is applied to the document returned by the reader, before the filters (README: language of the input document)",
   "abstains: unknown --filter names; unknown keys / unknown modules in the JSON; invalid values in modules the conversion "
   "does not use; JSON null where README does not list null; numbers for boolean keys and booleans/non-integral numbers/"
